@@ -168,3 +168,15 @@ Proof.
   intros s E. eapply MachineSnapProofs.snapshot_matches_position_lemma;
     [exact MachineProofs.ex_init_ok|exact E|exact MachineSnapProofs.snap_steps_ok|exact MachineSnapProofs.snap_steps_snap].
 Qed.
+
+(** * The machine's control flow is the control flow of the current source
+
+    (regenerated skeleton of checkpointWithExecutor and execCheckpoint, see Properties/C01.v and
+    Db/Skeleton.v: the whole-history theorems of this file are about the same machine) *)
+From LS Require Gen.Skeleton Db.Skeleton.
+
+Theorem checkpoint_skeleton_agrees :
+  Gen.Skeleton.skel_checkpointWithExecutor = Db.Skeleton.expected_checkpointWithExecutor
+  /\ Gen.Skeleton.skel_execCheckpoint = Db.Skeleton.expected_execCheckpoint.
+Proof. split; reflexivity. Qed.
+Print Assumptions checkpoint_skeleton_agrees.
